@@ -41,6 +41,8 @@ def run(ses):
     jobs = [(c01.job_roundtrip, (p, f, a)) for p in PUBLIC for f, a in c01.variants(p, ses.tier)]
     jobs.append((job_v3_public_key_ctor, ()))
     jobs += upper.roundtrip_jobs(PUBLIC, ses.tier)
+    from .. import coreapi
+    jobs.append((coreapi.job_core_api, ()))        # newtype constructors, builder(), setters, Clone: what the caller writes reaches the entry point unchanged
     run_jobs(ses, jobs)
     ses.trusted_base = TRUSTED
     ses.assumptions = ['private key bytes are valid for the scheme (see trusted_base); public key is the one derived from it',
@@ -49,4 +51,4 @@ def run(ses):
 
 confirm = c01.confirm
 replay = c01.replay
-BASELINE = ['core_builder_reuse']
+BASELINE = ['core_api', 'core_builder_reuse']
